@@ -87,7 +87,7 @@ impl Property for C15 {
         "strings of 0..300 characters over ASCII (incl. quotes, backslashes, controls), half/full-width kana, kanji and symbols, biased to characters whose Shift-JIS trail byte is 0x5C / 0x7C / 0x40 / 0x7E / 0x80 / 0xFC or whose bytes meet a mask byte, and to lengths around block and buffer boundaries; used (a) as arguments of every built-in MSG / END instruction with a string parameter in TH06..TH18 (incl. masked and furigana-quirk encodings; up to 5 consecutive strings per script), (b) under user signatures z/m/p with bs= / len= / nulless / mask= / furibug given in a mapfile, (c) as ANM paths, STD stage / BGM / ANM names and mission text lines: compile Ok => decompile Ok and every string comes back identical (compared with the generator's own string, in order); a string with an unencodable character must be rejected; a rejection needs an error diagnostic and either an unencodable character or an encoded length at the context's capacity. non-trivial = compile Ok with at least one multi-byte or special character"
     }
     fn tape_len(&self, tier: Tier) -> usize { tier.pick(400, 500) }
-    fn cases(&self, tier: Tier) -> u32 { tier.pick(80_000, 2_000_000) }
+    fn cases(&self, tier: Tier) -> u32 { tier.pick(200_000, 4_000_000) }
     fn required_labels(&self, _tier: Tier) -> Vec<&'static str> { vec!["ctx:msg-builtin", "ctx:user-sig", "ctx:anm-path", "ctx:std-names", "ctx:mission-text", "compile:ok", "compile:rejected", "unencodable", "trail5c", "len>=128", "masked", "furibug", "furigana-then-string", "fixed-len", "pascal"] }
     fn max_discard_fraction(&self) -> f64 { 0.1 }
 
@@ -188,6 +188,15 @@ impl Property for C15 {
                 None => any_unencodable = true,
                 Some(b) => { if b.len() >= *cap { any_at_capacity = true; } if !unambiguous(s) { any_ambiguous = true; } if b.len() >= 128 { ctx.label("len>=128"); } if b.windows(1).any(|w| w[0] == 0x5c) && s.chars().any(|c| TRAIL_5C.contains(&c)) { ctx.label("trail5c"); } }
             }
+        }
+        // the furigana quirk appends the previous furigana line's whole buffer (which itself may carry the one before it)
+        // to the next string: everything carried counts towards the capacity
+        let mut carry = 0usize;
+        for (i, s) in strings.iter().enumerate() {
+            let Some(b) = sjis_encode(s) else { carry = 0; continue; };
+            let total = b.len() + 1 + carry;
+            if carry > 0 && total + 16 >= caps[i] { any_at_capacity = true; }
+            carry = if s.starts_with('|') { (total + 3) / 4 * 4 } else { 0 };
         }
         if any_unencodable { ctx.label("unencodable"); }
         if any_ambiguous { return Outcome::Discard("string outside the unambiguous Shift-JIS domain".into()); }
